@@ -584,6 +584,47 @@ pub fn family_replay(t: &Tables, input: &str) -> Value {
                             (sq_of(f), sq_of(to), kind_of(s)) == mv
                         });
                         if let Some(sb) = succ {
+                            // the successor object itself against the rules' successor (placement, side, rights, ep, king cache, key)
+                            let st = t.state(sb);
+                            let want_s = &th["succ"];
+                            let mut kw = 0u32;
+                            let mut kb = 0u32;
+                            for sq in 1..=64u32 {
+                                let p = point_of(sq);
+                                let c = piece_code(sb.board[p.0][p.1]);
+                                if c == 6 {
+                                    kw = sq
+                                }
+                                if c == 12 {
+                                    kb = sq
+                                }
+                            }
+                            if st["r"] != want_s["r"] || st["stm"] != want_s["stm"] || st["cr"] != want_s["cr"] || st["ep"] != want_s["ep"]
+                                || st["wk"] != json!(kw) || st["bk"] != json!(kb) {
+                                mismatches.push(json!({"kind": "successor-after", "pos": m["pos"], "after": th["m"], "engine": st, "rules": want_s}));
+                            }
+                            if !st["res"].as_array().unwrap().is_empty() {
+                                mismatches.push(json!({"kind": "residue-after", "pos": m["pos"], "after": th["m"], "res": st["res"]}));
+                            }
+                            // the printed text and its replay through the text applier
+                            let txt = printed_move(sb);
+                            if json!(txt) != th["text"] {
+                                mismatches.push(json!({"kind": "text-printed", "pos": m["pos"], "after": th["m"], "engine": txt, "rules": th["text"]}));
+                            }
+                            let mut b2 = board.clone();
+                            let spec_text = th["text"].as_str().unwrap_or("").to_string();
+                            if catch_unwind(AssertUnwindSafe(|| crate::uci::verif_make_move(&mut b2, &spec_text, &t.hasher))).is_ok() {
+                                let s2 = t.state(&b2);
+                                if s2["r"] != want_s["r"] || s2["stm"] != want_s["stm"] || s2["cr"] != want_s["cr"] || s2["ep"] != want_s["ep"]
+                                    || s2["wk"] != st["wk"] || s2["bk"] != st["bk"] {
+                                    mismatches.push(json!({"kind": "text-after", "pos": m["pos"], "after": th["m"], "engine": s2, "rules": want_s}));
+                                }
+                                if !s2["res"].as_array().unwrap().is_empty() {
+                                    mismatches.push(json!({"kind": "residue-after", "pos": m["pos"], "after": th["m"], "res": s2["res"]}));
+                                }
+                            } else {
+                                mismatches.push(json!({"kind": "text-after", "pos": m["pos"], "after": th["m"], "panic": true}));
+                            }
                             let want2 = set_of(&th["legal"]);
                             if let Ok(m2) = catch_unwind(AssertUnwindSafe(|| generate_moves(sb, MoveGenerationMode::AllMoves, &t.hasher))) {
                                 let got2: BTreeSet<(u32, u32, u32)> = m2.iter().map(|s| {
